@@ -112,6 +112,10 @@ LEVEL = {'text': 'Proof + correspondence: ONE Lean Type 2 interpreter parameteri
          'decoding of all five encodings; rejection of each single-fault class; operator lemmas (rlineto, hvcurveto '
          'trailing operand, flex1 axis rule, hflex); progress of every path operator with a legal operand count. '
          'Whole-program progress and quirk-irrelevance are proved for the static grammar including calls into stack-neutral subroutine tables, without the six value-dependent operators.',
+ 'endchar_note': 'endchar operand counts: Spec.T2 (strict) accepts 0 or 4 operands (4 = adx ady bchar achar, TN5177 Appendix C) '
+                 'plus one leading width operand while the width is open; probed every run with 0..5 operands, first and '
+                 'after a width-settling operator, with dw != nw != 0 and adx != 0 (V t2.dec + D t2.spec on the legal ones). '
+                 'Stems: neither decoder nor Spec.T2 enforces the 96-stem limit (97 stems decode on both sides).',
  'note': 'Trusted: Lean kernel + 3 standard axioms; hand-written model tied by sampled correspondence; float64 vs '
          'exact fixed point outside div/sqrt; TN5177 as remembered.',
  'technique': 'Lean 4 executable interpreter (model = spec + quirks), theorems by case analysis/omega/decide, '
